@@ -301,14 +301,270 @@ def re_set_same(cfg):
     return "set %d %d %d %d %s %s %s" % (b, t, clamp(rw, 1, lim), clamp(rh, 1, lim), w[5], w[6], w[7])
 
 
-def gen_config_history(rng):
-    """set/get only (no thread): cheap, so shapes are unrestricted up to a few large ones."""
+# ----------------------------------------------------------------------------- re-configuration generators
+# What the size of frame_data / render_data depends on: binning^2 * w * h * bytes_of_type (32-aligned).  The reported shape
+# (dims, strides, type) does NOT determine it -- the binning is missing -- and neither does the byte size of the reported
+# image.  The sequences below change one of these factors while keeping others fixed, between two accepted sets of the same
+# camera, and always render at least one frame after the last set.
+SAME_BPP = {1: [0, 2], 2: [1, 3, 5, 6, 7], 4: [4]}
+RECONF_PATTERNS = ["bin-up", "bin-down", "same-bytes-type", "shrink-grow", "stopped-between-runs"]
+RECONF_STEPS = ["bin-up", "bin-down", "type-same-bpp", "type-wider", "type-narrower", "same-bytes", "shrink", "grow", "identical"]
+
+
+def cfg_text(c):
+    return "set %d %d %d %d %d %d %d" % (c["b"], c["t"], c["w"], c["h"], c["ox"], c["oy"], c["ex"])
+
+
+def cfg_pixels(c):
+    return c["b"] * c["b"] * c["w"] * c["h"]
+
+
+def cfg_of_set(op):
+    """The configuration in effect after an ACCEPTED set op (request clamped), or None when the op is rejected."""
+    w = op.split()
+    b = (int(w[1]) % 256) or 1
+    if b & (b - 1) or int(w[2]) not in BPP:
+        return None
+    lim = MAXDIM // b
+    return {"b": b, "t": int(w[2]), "w": clamp(int(w[3]) % 2 ** 32, 1, lim), "h": clamp(int(w[4]) % 2 ** 32, 1, lim),
+            "ox": int(w[5]), "oy": int(w[6]), "ex": int(w[7])}
+
+
+def base_cfg(rng, cap, bmax, b=None, t=None):
+    """A configuration whose shape is also admissible (and within cap full-resolution samples) at binning bmax."""
+    lim = MAXDIM // bmax
+    w = pick_dim(rng, min(lim, max(1, cap // (bmax * bmax))))
+    h = pick_dim(rng, min(lim, max(1, cap // (bmax * bmax * w))))
+    if rng.random() < 0.5:
+        w, h = h, w
+    return {"b": b if b is not None else bmax, "t": rng.choice(TYPES) if t is None else t, "w": w, "h": h,
+            "ox": rng.choice([0, 0, 1, 100]), "oy": rng.choice([0, 0, 7, 640]), "ex": rng.choice([0, 1, 100, 999])}
+
+
+def reconf_step(rng, c, step, cap):
+    """The configuration c changed in exactly one factor of the allocation size; None when the step does not apply to c."""
+    n = dict(c)
+    bpp = BPP[c["t"]]
+    if step == "bin-up":          # same reported shape and type, more full-resolution samples
+        cands = [b for b in (2, 4, 8, 16, 32) if b > c["b"] and c["w"] <= MAXDIM // b and c["h"] <= MAXDIM // b
+                 and b * b * c["w"] * c["h"] <= cap]
+        if not cands:
+            return None
+        n["b"] = rng.choice(cands[:3])
+    elif step == "bin-down":
+        cands = [b for b in (1, 2, 4, 8, 16) if b < c["b"]]
+        if not cands:
+            return None
+        n["b"] = rng.choice(cands)
+    elif step == "type-same-bpp":  # same dims, same byte size, other sample type
+        cands = [t for t in SAME_BPP[bpp] if t != c["t"]]
+        if not cands:
+            return None
+        n["t"] = rng.choice(cands)
+    elif step == "type-wider":     # same dims, more bytes per sample
+        cands = [t for t in TYPES if BPP[t] > bpp]
+        if not cands:
+            return None
+        n["t"] = rng.choice(cands)
+    elif step == "type-narrower":
+        cands = [t for t in TYPES if BPP[t] < bpp]
+        if not cands:
+            return None
+        n["t"] = rng.choice(cands)
+    elif step == "same-bytes":     # other type and other width, the same number of image bytes
+        cands = []
+        for t in TYPES:
+            q = BPP[t]
+            if q != bpp and (c["w"] * bpp) % q == 0 and 1 <= c["w"] * bpp // q <= MAXDIM // c["b"]:
+                cands.append((t, c["w"] * bpp // q))
+        if not cands:
+            return None
+        n["t"], n["w"] = rng.choice(cands)
+        if rng.random() < 0.3 and n["w"] <= MAXDIM // c["b"] and n["h"] <= MAXDIM // c["b"]:
+            n["w"], n["h"] = n["h"], n["w"]
+    elif step == "shrink":
+        if c["w"] * c["h"] <= 4:
+            return None
+        n["w"] = rng.choice([1, 2, 3, 4, 7, 8]) if c["w"] > 8 else max(1, c["w"] // 2)
+        n["h"] = rng.choice([1, 2, 3, 5, 8]) if c["h"] > 8 else max(1, c["h"] // 2)
+    elif step == "grow":
+        lim = MAXDIM // c["b"]
+        room = cap // (c["b"] * c["b"])
+        if c["w"] * c["h"] * 2 > room:
+            return None
+        n["w"] = min(lim, max(c["w"] + 1, pick_dim(rng, min(lim, max(1, room // c["h"])))))
+        if n["w"] * c["h"] > room:
+            n["w"] = c["w"]
+        n["h"] = min(lim, max(c["h"] + 1, pick_dim(rng, min(lim, max(1, room // n["w"])))))
+        if n["w"] * n["h"] > room:
+            n["h"] = c["h"]
+        if (n["w"], n["h"]) == (c["w"], c["h"]):
+            return None
+    elif step == "identical":
+        pass
+    else:
+        raise ValueError(step)
+    if rng.random() < 0.3:
+        n["ex"] = rng.choice([0, 1, 100, 999])
+    return n
+
+
+def step_tag(step, c, n):
+    if step in ("bin-up", "bin-down"):
+        return "reconfig-step:%s:%d>%d" % (step, c["b"], n["b"])
+    if step.startswith("type-") or step == "same-bytes":
+        return "reconfig-step:%s:bpp%d>%d" % (step, BPP[c["t"]], BPP[n["t"]])
+    return "reconfig-step:" + step
+
+
+def gen_run(rng):
+    """start / get_frame x1..2 / stop: the first frame op after a start returns only after the streamer has rendered (and
+    binned) one whole image with the configuration in effect, so the run is schedule independent."""
+    ops = ["start"]
+    for _ in range(rng.randint(1, 2)):
+        ops.append("frame %d %d" % (rng.choice([0, 0, 1, 7, 64]), rng.choice([0, 0x5a, 0xa5, 0xff, 0xbe])))
+    ops.append("stop")
+    return ops
+
+
+def gen_reconfig_history(rng, cap, kind, pattern):
+    """A whole-camera history aimed at one dependency of the buffer size.  Every set is issued while the camera is stopped
+    (C17's sequential domain), every history ends with a rendered frame after its last set.  Returns (ops, tags): tags are
+    the generator choices, to be counted into the evidence."""
+    tags = ["reconfig:" + pattern, "reconfig-kind:%d" % kind]
+    ops = ["new %d" % kind]
+
+    def emit(c, look=True):
+        ops.append(cfg_text(c))
+        if look:
+            ops.extend(rng.choice([["get", "shape"], ["shape"], ["get", "shape", "meta"]]))
+
+    def between():
+        r = rng.random() < 0.5
+        tags.append("reconfig-run-between:" + ("yes" if r else "no"))
+        if r:
+            ops.extend(gen_run(rng))
+
+    def apply(c, steps):
+        """first applicable step of `steps` (a generator choice already made by the caller's shuffle)"""
+        for s in steps:
+            n = reconf_step(rng, c, s, cap)
+            if n is not None:
+                tags.append(step_tag(s, c, n))
+                return n
+        tags.append("reconfig-step:identical")
+        return dict(c)
+
+    if pattern == "bin-up":
+        b1, b2 = rng.choice([(1, 2), (1, 2), (1, 4), (1, 8), (2, 4), (2, 8), (4, 8), (4, 8), (8, 16), (2, 32)])
+        c = base_cfg(rng, cap, b2, b=b1)
+        emit(c)
+        between()
+        n = dict(c, b=b2)
+        tags.append(step_tag("bin-up", c, n))
+        emit(n)
+        ops.extend(gen_run(rng))
+        if rng.random() < 0.3:                       # and once more, further up when there is room
+            m = apply(n, ["bin-up", "identical"])
+            emit(m)
+            ops.extend(gen_run(rng))
+    elif pattern == "bin-down":
+        b1, b2 = rng.choice([(2, 1), (4, 1), (8, 1), (4, 2), (8, 2), (8, 4), (16, 8), (32, 2)])
+        c = base_cfg(rng, cap, b1, b=b1)
+        emit(c)
+        between()
+        n = dict(c, b=b2)
+        tags.append(step_tag("bin-down", c, n))
+        emit(n)
+        ops.extend(gen_run(rng))
+        if rng.random() < 0.5:                       # down and up again: the buffers must grow back
+            m = apply(n, ["bin-up", "identical"])
+            emit(m)
+            ops.extend(gen_run(rng))
+    elif pattern == "same-bytes-type":
+        b = rng.choice([1, 2, 2, 4, 8])
+        c = base_cfg(rng, cap, b)
+        emit(c)
+        between()
+        order = ["type-same-bpp", "same-bytes", "type-wider", "type-narrower"]
+        rng.shuffle(order)
+        n = apply(c, order)
+        emit(n)
+        ops.extend(gen_run(rng))
+        if rng.random() < 0.4:
+            rng.shuffle(order)
+            m = apply(n, order)
+            emit(m)
+            ops.extend(gen_run(rng))
+    elif pattern == "shrink-grow":
+        b = rng.choice([1, 2, 4, 8])
+        c = base_cfg(rng, max(64, cap // 4), b)
+        if rng.random() < 0.5:                       # medium, small, large -- else small, large
+            emit(c)
+            between()
+        s = apply(c, ["shrink", "identical"])
+        if rng.random() < 0.4:
+            s["b"] = rng.choice([x for x in (1, 2, 4, 8) if x <= b])
+        emit(s)
+        between()
+        g = apply(dict(s, b=b), ["grow", "identical"])
+        if rng.random() < 0.4:
+            g["t"] = rng.choice(TYPES)
+        if cfg_pixels(g) > cap:
+            g = dict(c)
+        emit(g)
+        ops.extend(gen_run(rng))
+    elif pattern == "stopped-between-runs":
+        c = base_cfg(rng, max(64, cap // 4), rng.choice([1, 2, 4]))
+        emit(c)
+        ops.extend(gen_run(rng))
+        for rnd in range(rng.randint(1, 2)):
+            if rng.random() < 0.2:
+                ops.append("stop")                   # stop twice
+            for _ in range(rng.randint(2, 3)):       # several sets while stopped; only the last one is rendered
+                if rng.random() < 0.15:
+                    ops.append(bad_set(rng))
+                    tags.append("reconfig-step:rejected")
+                    continue
+                order = list(RECONF_STEPS)
+                rng.shuffle(order)
+                c = apply(c, order)
+                emit(c, look=rng.random() < 0.6)
+            if rng.random() < 0.25:
+                ops.append("frame 0 17")             # not running: must fail and write nothing
+            ops += ["get", "shape"]
+            ops.extend(gen_run(rng))
+    else:
+        raise ValueError(pattern)
+    ops.append("close")
+    return ops, tags
+
+
+def gen_config_history(rng, tags=None):
+    """set/get only (no thread): cheap, so shapes are unrestricted up to a few large ones.  About a third of the sets are
+    derived from the configuration in effect by one re-configuration step (same shape with another binning, same bytes with
+    another type, ...): the allocation log of exactly those pairs is what a stale-buffer shortcut in set would change."""
     ops = ["new %d" % rng.choice(KINDS), "get", "shape"]
+    cur = None
     for _ in range(rng.randint(3, 10)):
-        if rng.random() < 0.2:
+        r = rng.random()
+        if r < 0.2:
             ops.append(bad_set(rng))
+        elif r < 0.5 and cur is not None:
+            order = list(RECONF_STEPS)
+            rng.shuffle(order)
+            step, n = "identical", dict(cur)
+            for st in order:                          # the first step of a random order that applies to cur
+                cand = reconf_step(rng, cur, st, 1 << 22)
+                if cand is not None:
+                    step, n = st, cand
+                    break
+            if tags is not None:
+                tags.append("config-" + step_tag(step, cur, n))
+            ops.append(cfg_text(n))
         else:
             ops.append(pick_cfg(rng, 1 << (26 if rng.random() < 0.02 else 22), small_exposure=False))
+        cur = cfg_of_set(ops[-1]) or cur
         ops += rng.choice([["get", "shape"], ["shape", "get", "meta"], ["get"], ["shape"]])
     ops.append("close")
     return ops
@@ -420,10 +676,33 @@ def wellformed(ops):
     return True
 
 
+VALUE_KEYS = ("double-free", "get-mismatch", "shape-mismatch", "meta-mismatch", "start-failed", "copy-mismatch")
+
+
+def waits_for_frame(ops):
+    """Some start is followed by a frame op before the next stop/close/set: that frame op returns only after the streamer
+    thread has rendered and binned one whole image, so a sanitizer report of the render cannot be missed by a race between
+    the streamer's first iteration and the end of the process."""
+    running = False
+    for o in ops:
+        w = o.split()[0]
+        if w == "start":
+            running = True
+        elif w in ("stop", "close", "new"):
+            running = False
+        elif w == "frame" and running:
+            return True
+    return False
+
+
 def minimise(impl, h, key, env, keymap):
+    crash_key = key not in VALUE_KEYS
+
     def fails(cand):
         ops = [h[0]] + cand
         if not wellformed(ops):
+            return False
+        if crash_key and not waits_for_frame(ops):    # keep the replay deterministic (see waits_for_frame)
             return False
         rec = run_histories(impl, [ops], env=env, timeout=120)[0]
         return any(keymap(k) == key for (k, _, _) in oracle(ops, rec))
@@ -431,7 +710,23 @@ def minimise(impl, h, key, env, keymap):
         cur = [h[0]] + vlib.ddmin(h[1:], fails, max_tests=60)
     except Exception:
         return h
-    # shrink the requested shapes of the remaining set ops
+    # shrink the requested shapes of all remaining set ops together (keeps "same shape, other binning/type" relations) ...
+    sets = [i for i, o in enumerate(cur) if o.split()[0] == "set"]
+    for cand in ((4, 4), (16, 16), (33, 7), (64, 48)):
+        t = list(cur)
+        changed = False
+        for i in sets:
+            w = t[i].split()
+            if int(w[3]) * int(w[4]) > cand[0] * cand[1]:
+                t[i] = " ".join(w[:3] + [str(cand[0]), str(cand[1])] + w[5:])
+                changed = True
+        try:
+            if changed and fails(t[1:]):
+                cur = t
+                break
+        except Exception:
+            break
+    # ... then one by one
     for i, o in enumerate(cur):
         w = o.split()
         if w[0] != "set":
@@ -460,29 +755,126 @@ def native_key(k):
     return "native-memory-corruption"
 
 
-def fold_histories(ctx, impl, label, hists, mrecs, irecs, env, build_name, nontrivial_fn, keymap=same_key):
+def report_violations(ctx, impl, h, viol, env, build_name, keymap=same_key, extra=None):
+    """Register the oracle's findings on history h; the first one of each key gets a minimised, re-verified replay."""
+    for (key0, msg, k) in viol:
+        key = keymap(key0)
+        if ctx.has_violation(key):
+            ctx.violation(msg, None, key=key)
+            continue
+        hh = minimise(impl, h, key, env, keymap)
+        # the replay must reproduce: run it twice more; fall back to the history as found when the shrunk one is flaky
+        runs = [run_histories(impl, [hh], env=env, timeout=120)[0] for _ in range(2)]
+        hits = [any(keymap(kk) == key for (kk, _, _) in oracle(hh, rr)) for rr in runs]
+        if not all(hits) and hh != h:
+            hh = h
+            runs = [run_histories(impl, [hh], env=env, timeout=300)[0] for _ in range(2)]
+            hits = [any(keymap(kk) == key for (kk, _, _) in oracle(hh, rr)) for rr in runs]
+        rr = runs[hits.index(True)] if any(hits) else runs[0]
+        replay = {"history": hh, "impl_output": rr["out"], "crash": rr["crash"], "stderr": crash_summary(rr["err"]),
+                  "reproduced": "%d of 2 re-runs of this history" % sum(hits),
+                  "original_history": h,
+                  "env": env or {},
+                  "how": "printf '%%s\\n' <history lines> | .build/%s/%s seq   (built by this check from the repository under test; "
+                         "ASAN_OPTIONS=detect_leaks=0)" % (ctx.prop, build_name)}
+        if extra:
+            replay.update(extra)
+        ctx.violation(msg, replay, key=key)
+
+
+def alloc_log(line):
+    m = re.search(r"A\[([^\]]*)\]", line or "")
+    return m.group(1) if m else None
+
+
+def buffer_sizes(lines):
+    """(frame_data, render_data) sizes implied by the allocation logs of the SET lines so far (r:<old>><new>, in that
+    order).  Only used to order the search: which disagreements leave the implementation with LESS memory than the model."""
+    cur = [None, None]
+    for l in lines:
+        if l.startswith("SET"):
+            for i, n in enumerate(re.findall(r"r:\w+>(\d+)", alloc_log(l) or "")[:2]):
+                cur[i] = int(n)
+    return cur
+
+
+def fold_histories(ctx, impl, label, hists, mrecs, irecs, env, build_name, nontrivial_fn, keymap=same_key, alloc_dis=None):
     for h, m, r in zip(hists, mrecs, irecs):
         ctx.case(label + "\n" + "\n".join(h), nontrivial=nontrivial_fn(h, r))
         viol = oracle(h, r)
-        for (key0, msg, k) in viol:
-            key = keymap(key0)
-            if not ctx.has_violation(key):
-                hh = minimise(impl, h, key, env, keymap)
-                rr = run_histories(impl, [hh], env=env, timeout=120)[0]
-                ctx.violation(msg, {"history": hh, "impl_output": rr["out"], "crash": rr["crash"], "stderr": crash_summary(rr["err"]),
-                                    "original_history": h,
-                                    "how": "printf '%%s\\n' <history lines> | .build/%s/%s seq   (built by this check from the repository under test; "
-                                           "ASAN_OPTIONS=detect_leaks=0)" % (ctx.prop, build_name)}, key=key)
-            else:
-                ctx.violation(msg, None, key=key)
+        report_violations(ctx, impl, h, viol, env, build_name, keymap)
         if m["out"] != r["out"] or r["crash"]:
             d = next((k for k in range(min(len(m["out"]), len(r["out"]))) if m["out"][k] != r["out"][k]), min(len(m["out"]), len(r["out"])))
             ctx.broken_tie("model/implementation disagreement on a camera history (%s)" % label,
                            {"history": h[:d + 1], "op": h[d] if d < len(h) else None,
                             "model": m["out"][d] if d < len(m["out"]) else None,
                             "impl": r["out"][d] if d < len(r["out"]) else ("<process ended: %s>" % r["crash"])})
+            # a set whose allocation log differs from the model's: remembered for the search step (search_alloc_disagreements)
+            if alloc_dis is not None and d < len(h) and d < len(m["out"]) and d < len(r["out"]) and h[d].split()[0] == "set" \
+                    and alloc_log(m["out"][d]) != alloc_log(r["out"][d]):
+                ms, is_ = buffer_sizes(m["out"][:d + 1]), buffer_sizes(r["out"][:d + 1])
+                alloc_dis.append({"label": label, "history": h, "op_index": d, "model": m["out"][d], "impl": r["out"][d],
+                                  "model_sizes": ms, "impl_sizes": is_,
+                                  "under": any(x is not None and (y is None or y < x) for x, y in zip(ms, is_))})
         else:
             ctx.traces_validated += 1
+
+
+def search_alloc_disagreements(ctx, impl, env, alloc_dis, where, limit=6):
+    """Search step for allocation-log disagreements.  A set whose reallocations differ from the model's is not by itself a
+    violation of C17 (an implementation may keep a buffer that is large enough).  It is one exactly when the buffers are then
+    too small for what the streamer renders, so: take the history up to and including that set, stop the camera if it runs,
+    and append  start; frame; stop; close  -- for every camera kind (Random writes 4-byte words up to the aligned size, Sin
+    writes every sample, Empty only runs the binning passes) -- and run it under ASan/UBSan.  The verdict is the independent
+    oracle's (sanitizer report, fatal signal, shape/copy mismatch), never the disagreement itself.  The frame op returns only
+    after one complete render with the configuration in effect, so a too small buffer is reported deterministically."""
+    if not alloc_dis:
+        return
+    seen = set()
+    todo = []
+    for a in alloc_dis:
+        h, d = a["history"], a["op_index"]
+        core = [o for o in h[1:d + 1] if o.split()[0] in ("set", "start", "stop", "frame")]
+        running = False
+        for o in core:
+            running = o == "start" or (running and o != "stop")
+        tail = (["stop"] if running else []) + ["start", "frame 0 90", "stop", "close"]
+        sig = tuple(core)
+        if sig in seen:
+            continue
+        seen.add(sig)
+        last = next((cfg_of_set(o) for o in reversed(core) if o.startswith("set") and cfg_of_set(o)), None)
+        todo.append((cfg_pixels(last) * BPP[last["t"]] if last else 0, core, tail, a))
+    # the number of extended runs is bounded: the `limit` cheapest disagreements that leave the implementation with smaller
+    # buffers than the model (the candidates for an overflow), plus the 2 cheapest of the others as a cross-check
+    todo.sort(key=lambda x: x[0])
+    under = [x for x in todo if x[3]["under"]]
+    other = [x for x in todo if not x[3]["under"]]
+    ctx.count("search:alloc-disagreement:" + where, len(alloc_dis))
+    ctx.count("search:alloc-disagreement-smaller-than-model:" + where, len(under))
+    ext = []
+    for cost, core, tail, a in under[:limit] + other[:2]:
+        for kind in KINDS:
+            ops = ["new %d" % kind] + core + tail
+            if wellformed(ops):
+                ext.append((ops, a))
+    if not ext:
+        return
+    recs = vlib.parallel(lambda e: run_histories(impl, [e[0]], env=env, timeout=300)[0], ext)
+    found = 0
+    for (ops, a), rec in zip(ext, recs):
+        ctx.count("search:extended-history:" + where)
+        viol = oracle(ops, rec)
+        if viol:
+            found += 1
+            ctx.count("search:extended-history-failed:" + where)
+        report_violations(ctx, impl, ops, viol, env, "h_simgeom", same_key,
+                          extra={"found_by": "search step: allocation-log disagreement with the model on a %s history, extended with "
+                                             "start; frame; stop for every camera kind and run under ASan" % a["label"],
+                                 "disagreement": {"history": a["history"][:a["op_index"] + 1], "model": a["model"], "impl": a["impl"],
+                                                  "buffer_sizes_model": a["model_sizes"], "buffer_sizes_impl": a["impl_sizes"]}})
+    s = ctx.extra.setdefault("alloc_disagreement_search", {})
+    s[where] = {"disagreements": len(alloc_dis), "distinct": len(todo), "smaller_than_model": len(under), "extended_histories_run": len(ext), "extended_histories_failing": found}
 
 
 def model_histories(orac, hists):
@@ -570,7 +962,9 @@ def run(ctx):
         hs = [ops for _, ops in corpus]
         mrec = model_histories(orac, hs)
         irec = vlib.parallel(lambda h: run_histories(impl, [h], env=env, timeout=300)[0], hs)
-        fold_histories(ctx, impl, "corpus", hs, mrec, irec, env, "h_simgeom", nontriv_camera)
+        alloc_dis = []
+        fold_histories(ctx, impl, "corpus", hs, mrec, irec, env, "h_simgeom", nontriv_camera, alloc_dis=alloc_dis)
+        search_alloc_disagreements(ctx, impl, env, alloc_dis, "corpus")
         nrec = vlib.parallel(lambda h: run_histories(native, [h], timeout=300)[0], hs)
         fold_histories(ctx, native, "corpus-native", hs, mrec, nrec, None, "h_simgeom_native", nontriv_camera, native_key)
         ctx.count("corpus", len(hs))
@@ -598,7 +992,10 @@ def run(ctx):
 
     # ---- (2) set/get histories
     nconf = 15000 if thorough else 400
-    chists = [gen_config_history(rng) for _ in range(nconf)]
+    ctags = []
+    chists = [gen_config_history(rng, ctags) for _ in range(nconf)]
+    for tg in ctags:
+        ctx.count(tg)
     for h in chists:
         for o in h:
             ctx.count("op:" + o.split()[0])
@@ -607,9 +1004,12 @@ def run(ctx):
     shards = [s for s in vlib.shard(chists, vlib.NPROC) if s]
     mres = vlib.parallel(lambda s: model_histories(orac, s), shards)
     ires = vlib.parallel(lambda s: run_histories(impl, s, env=env, timeout=900), shards)
+    alloc_dis = []
     for s, m, r in zip(shards, mres, ires):
-        fold_histories(ctx, impl, "config", s, m, r, env, "h_simgeom", nontriv_config)
+        fold_histories(ctx, impl, "config", s, m, r, env, "h_simgeom", nontriv_config, alloc_dis=alloc_dis)
     ctx.sample(chists[0][:12])
+    # search step: every set whose allocation log differs from the model's is turned into a rendered frame under ASan
+    search_alloc_disagreements(ctx, impl, env, alloc_dis, "config")
 
     # ---- (3) whole-camera histories under ASan/UBSan with a real streamer thread
     cap = 1 << 20
@@ -630,6 +1030,19 @@ def run(ctx):
                 ["new 1", "set 2 0 4096 4096 0 0 100", "shape", "start", "frame 1 90", "stop", "close"],
                 ["new 2", "set 128 2 64 64 0 0 100", "get", "shape", "meta", "start", "frame 1 90", "stop", "close"]]
     whists += big
+    # re-configuration sequences aimed at what the buffer size depends on (binning, bytes per sample, dims): fixed counts
+    nrec = 0
+    for kind in KINDS:
+        for pat in RECONF_PATTERNS:
+            for _ in range(60 if thorough else 4):
+                h, tags = gen_reconfig_history(rng, 1 << (rng.choice([16, 18, 20]) if thorough else rng.choice([14, 16, 18])), kind, pat)
+                whists.append(h)
+                nrec += 1
+                for tg in tags:
+                    ctx.count(tg)
+                if nrec == 1:
+                    ctx.sample(h)
+    ctx.extra["reconfiguration_histories"] = nrec
     for h in whists:
         for o in h:
             ctx.count("op:" + o.split()[0])
@@ -641,8 +1054,10 @@ def run(ctx):
     shards = [s for s in vlib.shard(whists, vlib.NPROC) if s]
     mres = vlib.parallel(lambda s: model_histories(orac, s), shards)
     ires = vlib.parallel(lambda s: run_histories(impl, s, env=env, timeout=1000), shards)
+    alloc_dis = []
     for s, m, r in zip(shards, mres, ires):
-        fold_histories(ctx, impl, "camera", s, m, r, env, "h_simgeom", nontriv_camera)
+        fold_histories(ctx, impl, "camera", s, m, r, env, "h_simgeom", nontriv_camera, alloc_dis=alloc_dis)
+    search_alloc_disagreements(ctx, impl, env, alloc_dis, "camera")
     # the extracted model's own verdicts on those states
     chk = model_predicts_safe(orac, whists[:150])
     if chk < 0:
